@@ -21,7 +21,8 @@ NSHARDS = int(os.environ.get("VERIF_SHARDS", "16"))
 
 
 def load_findings():
-    p = os.path.join(VERIF, "known_findings.json")
+    # (the override exists for selftest/known_findings_selftest.py only)
+    p = os.environ.get("VERIF_KNOWN_FINDINGS") or os.path.join(VERIF, "known_findings.json")
     try:
         with open(p) as f:
             return json.load(f)
